@@ -25,7 +25,8 @@ from lib import gen
 from lib.harness import case_rng
 from lib.model import NULL, RowModel, allele_at, forest, isclose, mutation_parents
 from lib.props.c14 import (_first_diff, _msorted, bad_offsets, compare_individuals, diff_models, edge_key,
-                           mask_individuals, msprime_model, read_back, ref_dedup_sites, ref_sort, ref_subset)
+                           mask_individuals, msprime_model, read_back, ref_dedup_sites, ref_sort, ref_subset,
+                           stale_index)
 from lib.tsk import from_tables, tables_bytes, to_tables
 
 ID = "C07"
@@ -398,20 +399,14 @@ def check_sort_call(ctx, m, edge_start, site_start, mutation_start, detail, tag=
     if a != b:
         diff = sorted(k for k in set(a) | set(b) if a.get(k) != b.get(k))
         ctx.violation(f"{tag}/untouched-table-changed", f"{args} changed columns {diff}", detail)
+    if pre_index:
+        ctx.count("sort:indexed-input")
     if pre_index and tc.has_index():
-        # sort() kept an index: it must describe the sorted rows
+        # sort() kept an index: it must be the index of the rows as they are now (dropping it is fine too)
         ctx.count("sort:index-after-sort")
-        try:
-            ts = tc.tree_sequence()
-        except LIBERR:
-            ts = None
-        if ts is not None:
-            for tree in ts.trees():
-                x = (tree.interval.left + tree.interval.right) / 2
-                if {int(c): int(p) for c, p in tree.parent_dict.items()} != m.forest_at(x):
-                    ctx.violation(f"{tag}/stale-index", f"{args}: index kept across the sort gives wrong tree at {x}",
-                                  detail)
-                    break
+        msg = stale_index(tc)
+        if msg:
+            ctx.violation(f"{tag}/stale-index", f"{args}: {msg}; input edges {m.edges}", detail)
     # idempotence
     ctx.count("sort:idempotent")
     try:
@@ -501,6 +496,12 @@ def step(ctx, tc, name, fn, detail, expect_error=False):
     if bad:
         ctx.violation(f"repair/{name}-broken-offsets", f"{name}(): {bad[:2]}", detail)
         return False
+    if name != "build_index":
+        msg = stale_index(tc)
+        ctx.count("repair:index-consistent")
+        if msg:
+            ctx.violation(f"repair/{name}-stale-index", f"{name}(): {msg}", detail)
+            return False
     return True
 
 
